@@ -328,6 +328,11 @@ class Prop:
     def cases(self, tier, rng):
         return []
 
+    def project(self, line, impl):
+        """Projection of the implementation's raw result line onto what this property's model
+        and specification talk about (identity by default).  Applied before any comparison."""
+        return impl
+
     def klass(self, line, impl):
         return impl.split(" ")[0] if impl else "empty"
 
@@ -447,7 +452,7 @@ def run_check(prop, tier, seed):
             if l not in seen:
                 seen.add(l)
                 lines.append(l)
-        impl = run_impl(lines)
+        impl = [prop.project(l, o) for l, o in zip(lines, run_impl(lines))]
         if ok_drv:
             model, spec = run_model(lines)
         else:
@@ -490,13 +495,13 @@ def run_check(prop, tier, seed):
 
         def still(c):
             try:
-                im = run_impl([c])[0]
+                im = prop.project(c, run_impl([c])[0])
                 mo, sp = run_model([c])
                 return not spec_match(sp[0], im)
             except Exception:
                 return False
         small = shrink(prop, lines[i], still) if ok_drv else lines[i]
-        im = run_impl([small])[0]
+        im = prop.project(small, run_impl([small])[0])
         mo, sp = (run_model([small]) if ok_drv else (["?"], ["?"]))
         f2 = finding_for(prop.id, small, mo[0], findings)
         if f2 is not None and im == mo[0]:
@@ -586,9 +591,12 @@ def replay(path, props):
     rc = 0
     if "case" in data and okd and okh:
         c = data["case"]
-        im = run_impl([c])[0]
+        raw = run_impl([c])[0]
+        im = prop.project(c, raw)
         mo, sp = run_model([c])
         print("case : " + c)
+        if raw != im:
+            print("raw  : " + raw)
         print("impl : " + im)
         print("model: " + mo[0])
         print("spec : " + sp[0])
